@@ -420,7 +420,7 @@ def _errors(rc: RuleCtx):
             sides = side(it, env)
             # searched side = the local used as `b`: find the body name bound to the other set
             row[sname] = sides
-        tables[name] = {k: [(str(g), s) for g, s in v] for k, v in row.items()}
+        tables[name] = {k: sorted(((str(g), s) for g, s in v), key=lambda t: (t[1], t[0])) for k, v in row.items()}      # (the order of the branches is immaterial)
         # required table
         lk = anf.opaque("len", anf.opaque("take", table["best"][1]["points"].items[0], table["best"][1]["knees"], array=True), array=False)
 
